@@ -40,12 +40,12 @@ type Log struct {
 	mu  sync.Mutex
 	evs []Ev
 	On  func(*Ev)         // optional observer, called with the lock held
-	Pre func(kind string) // optional: called at the start of every reporter call, before the log is locked (may park the caller)
+	Pre func(e *Ev)       // optional: called at the start of every reporter call, before the log is locked (may park the caller)
 }
 
 func (l *Log) add(e Ev) {
 	if l.Pre != nil {
-		l.Pre(e.Kind)
+		l.Pre(&e)
 	}
 	l.mu.Lock()
 	e.Seq = len(l.evs)
